@@ -349,6 +349,29 @@ func phiLeaves(v ssa.Value) []phiLeaf {
 	return out
 }
 
+// phiChain lists the phi nodes reachable from v through phi operands (v included if it is a phi).
+func phiChain(v ssa.Value) []*ssa.Phi {
+	var out []*ssa.Phi
+	seen := map[*ssa.Phi]bool{}
+	var rec func(ph *ssa.Phi)
+	rec = func(ph *ssa.Phi) {
+		if seen[ph] {
+			return
+		}
+		seen[ph] = true
+		out = append(out, ph)
+		for _, e := range ph.Edges {
+			if inner, ok := e.(*ssa.Phi); ok {
+				rec(inner)
+			}
+		}
+	}
+	if ph, ok := v.(*ssa.Phi); ok {
+		rec(ph)
+	}
+	return out
+}
+
 // satGuard: the guards contain len(*QueryRule(...)) != 0 == want for a QueryRule call accepted by okCall.
 func satGuard(p *Prog, gs []guard, want bool, okCall func(*ssa.Call) bool) bool {
 	for _, g := range gs {
@@ -503,6 +526,12 @@ func ruleAZDisj(p *Prog, r *Reporter) {
 		}
 		okLeaves := true
 		why := ""
+		// the flag must start false for every check: it may not be carried from one check to the next
+		for _, ph := range phiChain(S) {
+			if ph.Block() == outer.header {
+				okLeaves, why = false, "the success flag is carried over from one check to the next (initialised outside the loop over the checks): once one check succeeds every later check counts as satisfied"
+			}
+		}
 		for _, lf := range phiLeaves(S) {
 			k, isK := lf.val.(*ssa.Const)
 			if !isK || k.Value == nil {
